@@ -6,6 +6,7 @@
 -/
 import BlocV.Model.Cli
 import BlocV.Spec.Cli
+import BlocV.Proofs.Lemmas.CliInterp
 
 namespace BlocV.C19
 open BlocV BlocV.Cli
@@ -82,6 +83,450 @@ example : modeOf [str "-i", str "p.bloc", str "a"] = .interactive { docli := tru
 example : getCmd {} [str "-info", str "--output=x", str "-"] = .ok { docli := true } [str "-"] := by decide
 example : getCmd {} [str "--out=a", str "--out=b", str "-q", str "f"] = .bad (str "-q") := by decide
 
+/-! ### `getCmd` in full: the latch, and what comes after the program word -/
+
+/-- The if-chain of `getCmd` folded over a list of option words; `.error a` = the first word no test accepts. -/
+def applyOptions : Options → List Bytes → Except Bytes Options
+  | o, [] => .ok o
+  | o, a :: rest =>
+    match applyOption o a with
+    | some o' => applyOptions o' rest
+    | none => .error a
+
+/-- The C test `**it != '-' || strlen(*it) == 1` (negated) is the Spec's notion of an option word. -/
+theorem optionShaped_eq_spec (w : Bytes) : optionShaped w = Spec.Cli.isOptionWord w := by
+  cases w with
+  | nil => rfl
+  | cons c t =>
+    cases t with
+    | nil =>
+      by_cases hc : c = 45
+      · subst hc; rfl
+      · simp [optionShaped, Spec.Cli.isOptionWord, hc]
+    | cons d t' =>
+      by_cases hc : c = 45
+      · subst hc; simp [optionShaped, Spec.Cli.isOptionWord]
+      · simp [optionShaped, Spec.Cli.isOptionWord]
+
+/-- **getCmd, completely.** For EVERY argv and starting options: the options are the if-chain folded over
+the longest prefix of option words and nothing else; the program vector is the rest of argv, untouched
+(the `cmd` latch: once the program word — a file name, the empty word, or `-` — has been seen, no later
+word is looked at, whatever it looks like); an unknown option among the option words is the only failure. -/
+theorem getCmd_eq (argv : List Bytes) : ∀ o : Options,
+    getCmd o argv = match applyOptions o (Spec.Cli.optionWords argv) with
+      | .error a => .bad a
+      | .ok o' => .ok o' (Spec.Cli.programWords argv) := by
+  induction argv with
+  | nil => intro o; rfl
+  | cons a rest ih =>
+    intro o
+    unfold getCmd Spec.Cli.optionWords Spec.Cli.programWords
+    rw [optionShaped_eq_spec]
+    by_cases ha : Spec.Cli.isOptionWord a = true
+    · simp only [ha, if_true, List.takeWhile_cons, List.dropWhile_cons]
+      simp only [applyOptions]
+      cases hap : applyOption o a with
+      | none => rfl
+      | some o1 => exact ih o1
+    · have ha' : Spec.Cli.isOptionWord a = false := by simpa using ha
+      simp [ha', applyOptions]
+
+theorem optionWords_append (pre : List Bytes) (p : Bytes) (tail : List Bytes)
+    (hpre : pre.all Spec.Cli.isOptionWord = true) (hp : Spec.Cli.isOptionWord p = false) :
+    Spec.Cli.optionWords (pre ++ p :: tail) = pre ∧ Spec.Cli.programWords (pre ++ p :: tail) = p :: tail := by
+  induction pre with
+  | nil => simp [Spec.Cli.optionWords, Spec.Cli.programWords, hp]
+  | cons a r ih =>
+    simp only [List.all_cons, Bool.and_eq_true] at hpre
+    have := ih hpre.2
+    simp only [Spec.Cli.optionWords, Spec.Cli.programWords] at this ⊢
+    simp [hpre.1, this.1, this.2]
+
+/-- **args_after_program_are_ARG.** Write the command line as `pre ++ p :: tail` with `pre` option words
+and `p` not one (a file name, `""`, or `-`). Then, for every `tail` — words starting with a dash, `--out=…`,
+`-i`, `-e`, `-h`, `--`, numbers like `-1` `-2.5`, empty words — :
+(1) `getCmd` returns the options computed from `pre` ALONE and the program vector `p :: tail` verbatim;
+(2) in program mode (`-i`, `-e` not among `pre`) the process is `runProgramMode` with those options, the
+    program `p`, and `$ARG` = the Spec's table of `tail`, in order;
+(3) with `-i` among `pre` every word `p :: tail` is an argument; with `-e` (no `-i`) they are the expression;
+(4) an unknown option is reported only when it stands in `pre`. -/
+theorem args_after_program_are_ARG (env : Env) (pre : List Bytes) (p : Bytes) (tail : List Bytes) (stdin : Bytes)
+    (hpre : pre.all Spec.Cli.isOptionWord = true) (hp : Spec.Cli.isOptionWord p = false) :
+    (∀ o, getCmd o (pre ++ p :: tail) = match applyOptions o pre with
+      | .error a => .bad a
+      | .ok o' => .ok o' (p :: tail)) ∧
+    (∀ o, applyOptions {} pre = .ok o → o.docli = false → o.doexp = false →
+      modeOf (pre ++ p :: tail) = .program o p tail ∧
+      run env (pre ++ p :: tail) stdin = runProgramMode env o p tail stdin ∧
+      (initState tail).vars = [("$ARG", Spec.Cli.argTable tail)]) ∧
+    (∀ o, applyOptions {} pre = .ok o → o.docli = true → modeOf (pre ++ p :: tail) = .interactive o (p :: tail)) ∧
+    (∀ o, applyOptions {} pre = .ok o → o.docli = false → o.doexp = true → modeOf (pre ++ p :: tail) = .expr o (p :: tail)) ∧
+    (∀ a, applyOptions {} pre = .error a → modeOf (pre ++ p :: tail) = .badOption a) := by
+  have hw := optionWords_append pre p tail hpre hp
+  have hg : ∀ o, getCmd o (pre ++ p :: tail) = match applyOptions o pre with
+      | .error a => .bad a
+      | .ok o' => .ok o' (p :: tail) := by
+    intro o; rw [getCmd_eq, hw.1, hw.2]
+  refine ⟨hg, ?_, ?_, ?_, ?_⟩
+  · intro o ho hi he
+    have hm : modeOf (pre ++ p :: tail) = .program o p tail := by
+      unfold modeOf; rw [hg, ho]; simp [hi, he]
+    exact ⟨hm, by unfold run; rw [hm], rfl⟩
+  · intro o ho hi
+    unfold modeOf; rw [hg, ho]; simp [hi]
+  · intro o ho hi he
+    unfold modeOf; rw [hg, ho]; simp [hi, he]
+  · intro a ha
+    unfold modeOf; rw [hg, ha]
+
+/-- `bloc - -v tail`, `bloc file --out=x`, `bloc - -1 -2.5`, `bloc --out=o - -n 3`, an empty program word. -/
+example : modeOf [str "-", str "-v", str "tail"] = .program {} (str "-") [str "-v", str "tail"] := by decide
+example : modeOf [str "file", str "--out=x"] = .program {} (str "file") [str "--out=x"] := by decide
+example : modeOf [str "-", str "-1", str "-2.5"] = .program {} (str "-") [str "-1", str "-2.5"] := by decide
+example : modeOf [str "--out=o", str "-", str "-n", str "3"] = .program { fileSout := str "o" } (str "-") [str "-n", str "3"] := by decide
+example : modeOf [str "", str "-i", str "--"] = .program {} [] [str "-i", str "--"] := by decide
+/-- `--`, `-v`, `-d` are unknown options (there is no end-of-options word); `--out o` takes `o` as the program. -/
+example : modeOf [str "--", str "f"] = .badOption (str "--") ∧ modeOf [str "-v", str "f"] = .badOption (str "-v") ∧
+    modeOf [str "--out", str "o", str "f"] = .program {} (str "o") [str "f"] := by decide
+example : [str "--color", str "--out=o"].all Spec.Cli.isOptionWord = true ∧ Spec.Cli.isOptionWord (str "-") = false ∧
+    applyOptions {} [str "--color", str "--out=o"] = .ok { color := true, fileSout := str "o" } := ⟨by decide, by decide, by rfl⟩
+
+/-! ### where the output goes -/
+
+theorem hasPrefix_iff (p : Bytes) : ∀ s : Bytes, hasPrefix s p = true ↔ ∃ r, s = p ++ r := by
+  induction p with
+  | nil => intro s; cases s <;> simp [hasPrefix]
+  | cons o opt ih =>
+    intro s
+    cases s with
+    | nil => simp [hasPrefix]
+    | cons c t =>
+      simp only [hasPrefix, Bool.and_eq_true, beq_iff_eq, ih t, List.cons_append, List.cons.injEq]
+      constructor
+      · rintro ⟨h1, r, h2⟩; exact ⟨r, h1, h2⟩
+      · rintro ⟨r, h1, h2⟩; exact ⟨h1, r, h2⟩
+
+theorem cmdOption_fst (s opt old : Bytes) : (cmdOption s opt old).1 = hasPrefix s opt := by
+  unfold cmdOption
+  split
+  · split <;> simp_all
+  · simp_all
+
+/-- One option word: `file_sout` becomes the value of a `--out=V` word and is left alone by every other word. -/
+theorem applyOption_fileSout (o o' : Options) (a : Bytes) (h : applyOption o a = some o') :
+    o'.fileSout = match Spec.Cli.outValue a with
+      | some v => v
+      | none => o.fileSout := by
+  unfold applyOption at h
+  simp only [cmdOption_fst] at h
+  have hno : ∀ (pfx r : Bytes), a = pfx ++ r → (∀ r', Spec.Cli.outValue (pfx ++ r') = none) → Spec.Cli.outValue a = none := by
+    intro pfx r e hh; rw [e]; exact hh r
+  split at h
+  · rename_i h1
+    obtain ⟨r, hr⟩ := (hasPrefix_iff _ _).1 h1
+    have : Spec.Cli.outValue a = none := hno _ r hr (by intro r'; simp [str, Spec.Cli.outValue])
+    cases h; simp [this]
+  · split at h
+    · rename_i _ h1
+      obtain ⟨r, hr⟩ := (hasPrefix_iff _ _).1 h1
+      have : Spec.Cli.outValue a = none := hno _ r hr (by intro r'; simp [str, Spec.Cli.outValue])
+      cases h; simp [this]
+    · split at h
+      · rename_i _ _ h1
+        have : Spec.Cli.outValue a = none := by
+          rcases Bool.or_eq_true _ _ ▸ h1 with h1 | h1
+          · obtain ⟨r, hr⟩ := (hasPrefix_iff _ _).1 h1
+            exact hno _ r hr (by intro r'; simp [str, Spec.Cli.outValue])
+          · obtain ⟨r, hr⟩ := (hasPrefix_iff _ _).1 h1
+            exact hno _ r hr (by intro r'; simp [str, Spec.Cli.outValue])
+        cases h; simp [this]
+      · split at h
+        · rename_i _ _ _ h1
+          obtain ⟨r, hr⟩ := (hasPrefix_iff _ _).1 h1
+          have : Spec.Cli.outValue a = none := hno _ r hr (by intro r'; simp [str, Spec.Cli.outValue])
+          cases h; simp [this]
+        · split at h
+          · rename_i _ _ _ _ h1
+            have : Spec.Cli.outValue a = none := by
+              rcases Bool.or_eq_true _ _ ▸ h1 with h1 | h1
+              · obtain ⟨r, hr⟩ := (hasPrefix_iff _ _).1 h1
+                exact hno _ r hr (by intro r'; simp [str, Spec.Cli.outValue])
+              · obtain ⟨r, hr⟩ := (hasPrefix_iff _ _).1 h1
+                exact hno _ r hr (by intro r'; simp [str, Spec.Cli.outValue])
+            cases h; simp [this]
+          · split at h
+            · rename_i _ _ _ _ _ h1
+              obtain ⟨r, hr⟩ := (hasPrefix_iff _ _).1 h1
+              cases h
+              subst hr
+              cases r with
+              | nil => simp [cmdOption, hasPrefix, str, Spec.Cli.outValue]
+              | cons c r' =>
+                by_cases hc : c = 61
+                · subst hc; simp [cmdOption, hasPrefix, str, Spec.Cli.outValue]
+                · simp [cmdOption, hasPrefix, str, Spec.Cli.outValue, hc]
+            · cases h
+
+/-- `finish` after a library run, per selection: where the printed text is. -/
+theorem stdout_eq_library_output_aux (env : Env) (r : RunResult) :
+    ((finish env .stdout (.ran r)).stdout = (match r.outcome with
+        | .ok (some v) => r.st.output ++ outputVal v
+        | _ => r.st.output) ∧ (finish env .stdout (.ran r)).outFile = none) ∧
+    (∀ path, (finish env (.file path) (.ran r)).stdout = [] ∧ (finish env (.file path) (.ran r)).outFile = some (path, (match r.outcome with
+        | .ok (some v) => r.st.output ++ outputVal v
+        | _ => r.st.output))) := by
+  obtain ⟨oc, rst⟩ := r
+  unfold finish
+  cases oc with
+  | ok v => cases v <;> simp [deliver]
+  | err c a => by_cases hc : (c == oofCode) = true <;> simp [hc, deliver]
+  | haz h => simp [deliver]
+  | unmodelled => simp [deliver]
+
+theorem getLast?_cons_some {α} (a : α) (l : List α) (x : α) (h : l.getLast? = some x) : (a :: l).getLast? = some x := by
+  cases l with
+  | nil => simp at h
+  | cons b t => simpa [List.getLast?_cons_cons] using h
+
+/-- After all option words: `file_sout` is the value of the LAST `--out=V` word, or what it was before. -/
+theorem applyOptions_fileSout : ∀ (pre : List Bytes) (o o' : Options), applyOptions o pre = .ok o' →
+    o'.fileSout = match (pre.filterMap Spec.Cli.outValue).getLast? with
+      | some p => p
+      | none => o.fileSout := by
+  intro pre
+  induction pre with
+  | nil => intro o o' h; simp [applyOptions] at h; simp [h]
+  | cons a rest ih =>
+    intro o o' h
+    unfold applyOptions at h
+    cases hap : applyOption o a with
+    | none => simp [hap] at h
+    | some o1 =>
+      simp only [hap] at h
+      have h1 := applyOption_fileSout o o1 a hap
+      have h2 := ih o1 o' h
+      rw [h2]
+      cases hv : Spec.Cli.outValue a with
+      | none => simp only [List.filterMap_cons, hv]; rw [hv] at h1; simp only at h1; rw [h1]
+      | some v =>
+        rw [hv] at h1; simp only at h1
+        simp only [List.filterMap_cons, hv]
+        cases hl : (rest.filterMap Spec.Cli.outValue).getLast? with
+        | none =>
+          have : rest.filterMap Spec.Cli.outValue = [] := by simpa using hl
+          simp [this, h1]
+        | some x => rw [getLast?_cons_some v _ x hl]
+
+/-- **out_routing.** For every command line `pre ++ p :: tail` in program mode: the output is selected by the
+option words `pre` ALONE — the standard output when no `--out=V` with a non-empty `V` is the last one, else the
+file `V` of the last `--out=` (a `--out=…` AFTER the program word selects nothing: it is an argument). When the
+program text is available and the file opens, whatever the library run `r` printed, followed by the rendering of
+the returned value, is on the selected output and nowhere else: with a file selected the standard output is empty
+and the file holds it; with the standard output selected no file is made. -/
+theorem out_routing (env : Env) (pre : List Bytes) (p : Bytes) (tail : List Bytes) (stdin : Bytes) (o : Options)
+    (hpre : pre.all Spec.Cli.isOptionWord = true) (hp : Spec.Cli.isOptionWord p = false)
+    (ho : applyOptions {} pre = .ok o) (hi : o.docli = false) (he : o.doexp = false) :
+    selOf o = (if (Spec.Cli.outPath pre).isEmpty then .stdout else .file (Spec.Cli.outPath pre)) ∧
+    (∀ text r, (if p == [45] then some stdin else env.readFile p) = some text →
+      ((Spec.Cli.outPath pre).isEmpty = true ∨ env.canWrite (Spec.Cli.outPath pre) = true) →
+      library env (readText text) tail = .ran r →
+      let P := run env (pre ++ p :: tail) stdin
+      let printed := match r.outcome with
+        | .ok (some v) => r.st.output ++ outputVal v
+        | _ => r.st.output
+      ((Spec.Cli.outPath pre).isEmpty = true → P.stdout = printed ∧ P.outFile = none) ∧
+      ((Spec.Cli.outPath pre).isEmpty = false → P.stdout = [] ∧ P.outFile = some (Spec.Cli.outPath pre, printed))) := by
+  have hfs : o.fileSout = Spec.Cli.outPath pre := by
+    have := applyOptions_fileSout pre {} o ho
+    rw [this]; unfold Spec.Cli.outPath; cases (pre.filterMap Spec.Cli.outValue).getLast? <;> rfl
+  have hsel : selOf o = (if (Spec.Cli.outPath pre).isEmpty then .stdout else .file (Spec.Cli.outPath pre)) := by
+    unfold selOf; rw [hfs]
+  refine ⟨hsel, ?_⟩
+  intro text r hsrc hw hlib
+  have hrun := ((args_after_program_are_ARG env pre p tail stdin hpre hp).2.1 o ho hi he).2.1
+  simp only [hrun]
+  unfold runProgramMode
+  rw [hsel, hfs, hsrc]
+  simp only [hlib]
+  have hsl := stdout_eq_library_output_aux env r
+  by_cases hE : (Spec.Cli.outPath pre).isEmpty = true
+  · simp only [hE, if_true]
+    simp only [Bool.false_eq_true, if_false]
+    exact ⟨fun _ => hsl.1, fun h => by simp at h⟩
+  · have hE' : (Spec.Cli.outPath pre).isEmpty = false := by simpa using hE
+    have hcw : env.canWrite (Spec.Cli.outPath pre) = true := by
+      rcases hw with hw | hw
+      · exact absurd hw hE
+      · exact hw
+    simp only [hE', Bool.false_eq_true, if_false, hcw, Bool.not_true]
+    exact ⟨fun h => by simp at h, fun _ => hsl.2 _⟩
+
+/-- `bloc --out=a --out=b p x`: the file is `b`; `bloc --out=a --out= p`: the standard output again;
+`bloc p --out=x`: the standard output, `--out=x` is `$ARG[0]`. -/
+example : Spec.Cli.outPath [str "--out=a", str "--color", str "--out=b"] = str "b" ∧ Spec.Cli.outPath [str "--out=a", str "--out="] = [] ∧
+    Spec.Cli.outPath [str "--output=x", str "--out"] = [] ∧
+    modeOf [str "p", str "--out=x"] = .program {} (str "p") [str "--out=x"] := by decide
+
+/-! ### the reader (`ReadFile::read`) -/
+
+theorem dropCr_cons (c : UInt8) (t : Bytes) : dropCr (c :: t) = if c == 13 then dropCr t else c :: dropCr t := by
+  unfold dropCr
+  by_cases h : c = 13 <;> simp [h]
+
+/-- One call neither loses nor duplicates a byte: what was in the buffer plus the stream without its CRs is
+what is returned plus the remaining stream without its CRs. -/
+theorem readCall_conserves (max : Nat) : ∀ (stream acc : Bytes),
+    acc.reverse ++ dropCr stream = (readCall max acc stream).1 ++ dropCr (readCall max acc stream).2 := by
+  intro stream
+  induction stream with
+  | nil => intro acc; simp [readCall, dropCr]
+  | cons c t ih =>
+    intro acc
+    unfold readCall
+    by_cases hlt : acc.length < max
+    · simp only [hlt, if_true]
+      by_cases hc : c = 13
+      · subst hc; simp only [beq_self_eq_true, if_true]; rw [← ih acc]; simp [dropCr_cons]
+      · have hc' : (c == 13) = false := by simpa using hc
+        simp only [hc', Bool.false_eq_true, if_false]
+        by_cases hn : c = 10
+        · subst hn; simp [dropCr_cons]
+        · have hn' : (c != 10) = true := by simpa using hn
+          simp only [hn', if_true]
+          rw [← ih (c :: acc)]
+          simp [dropCr_cons, hc']
+    · simp [hlt]
+
+/-- A call never returns more than `max` bytes (the buffer is never overrun). -/
+theorem readCall_bounded (max : Nat) : ∀ (stream acc : Bytes), acc.length ≤ max → (readCall max acc stream).1.length ≤ max := by
+  intro stream
+  induction stream with
+  | nil => intro acc h; simpa [readCall] using h
+  | cons c t ih =>
+    intro acc h
+    unfold readCall
+    by_cases hlt : acc.length < max
+    · simp only [hlt, if_true]
+      split
+      · exact ih acc h
+      · split
+        · exact ih (c :: acc) (by simp only [List.length_cons]; omega)
+        · simp only [List.length_reverse, List.length_cons]; omega
+    · simpa [hlt] using h
+
+/-- The stream only shrinks, by at least the number of bytes delivered. -/
+theorem readCall_consumes (max : Nat) : ∀ (stream acc : Bytes),
+    (readCall max acc stream).1.length + (readCall max acc stream).2.length ≤ acc.length + stream.length := by
+  intro stream
+  induction stream with
+  | nil => intro acc; simp [readCall]
+  | cons c t ih =>
+    intro acc
+    unfold readCall
+    by_cases hlt : acc.length < max
+    · simp only [hlt, if_true]
+      split
+      · have := ih acc; simp only [List.length_cons]; omega
+      · split
+        · have := ih (c :: acc); simp only [List.length_cons] at this ⊢; omega
+        · simp only [List.length_reverse, List.length_cons]; omega
+    · simp [hlt]
+
+/-- With room for at least one byte, a call returns nothing only at the end of the file (only CRs were left). -/
+theorem readCall_empty (max : Nat) (hmax : 1 ≤ max) : ∀ (stream acc : Bytes),
+    (readCall max acc stream).1 = [] → acc = [] ∧ dropCr stream = [] := by
+  intro stream
+  induction stream with
+  | nil => intro acc h; simpa [readCall, dropCr] using h
+  | cons c t ih =>
+    intro acc h
+    unfold readCall at h
+    by_cases hlt : acc.length < max
+    · simp only [hlt, if_true] at h
+      by_cases hc : c = 13
+      · subst hc
+        simp only [beq_self_eq_true, if_true] at h
+        have := ih acc h
+        exact ⟨this.1, by simpa [dropCr_cons] using this.2⟩
+      · have hc' : (c == 13) = false := by simpa using hc
+        simp only [hc', Bool.false_eq_true, if_false] at h
+        split at h
+        · exact absurd (ih (c :: acc) h).1 (by simp)
+        · simp at h
+    · simp only [hlt, if_false] at h
+      have : acc = [] := by simpa using h
+      subst this
+      simp at hlt
+      omega
+
+theorem readChunksF_flatten (max : Nat) (hmax : 1 ≤ max) : ∀ (fuel : Nat) (stream : Bytes), stream.length < fuel →
+    (readChunksF max fuel stream).flatten = dropCr stream := by
+  intro fuel
+  induction fuel with
+  | zero => intro stream h; omega
+  | succ k ih =>
+    intro stream h
+    unfold readChunksF
+    have hc := readCall_conserves max stream []
+    have hl := readCall_consumes max stream []
+    simp only [List.reverse_nil, List.nil_append, List.length_nil, Nat.zero_add] at hc hl
+    by_cases he : (readCall max [] stream).1 = []
+    · have := readCall_empty max hmax stream [] he
+      simp [he, this.2]
+    · have hne : (readCall max [] stream).1.isEmpty = false := by simpa using he
+      simp only [hne, Bool.false_eq_true, if_false, List.flatten_cons]
+      have hpos : 0 < (readCall max [] stream).1.length := List.length_pos_iff.2 he
+      rw [ih _ (by omega), ← hc]
+
+/-- **reader_delivers_every_byte.** For every file content and every buffer size `max ≥ 1`, the concatenation
+of the chunks the reader returns (call after call, until it returns 0) is the file minus its CR bytes: no
+byte is dropped or duplicated at a buffer-full boundary, at a newline, at a CR, or at the end of the file;
+every chunk is non-empty and fits the buffer. -/
+theorem reader_delivers_every_byte (max : Nat) (hmax : 1 ≤ max) (file : Bytes) :
+    (readChunks max file).flatten = Spec.Cli.withoutCr file ∧
+    (∀ c ∈ readChunks max file, c ≠ [] ∧ c.length ≤ max) := by
+  refine ⟨readChunksF_flatten max hmax _ file (by omega), ?_⟩
+  unfold readChunks
+  generalize file.length + 1 = fuel
+  induction fuel generalizing file with
+  | zero => intro c hc; simp [readChunksF] at hc
+  | succ k ih =>
+    intro c hc
+    unfold readChunksF at hc
+    by_cases he : (readCall max [] file).1 = []
+    · simp [he] at hc
+    · have hne : (readCall max [] file).1.isEmpty = false := by simpa using he
+      simp only [hne, Bool.false_eq_true, if_false, List.mem_cons] at hc
+      rcases hc with hc | hc
+      · subst hc; exact ⟨he, readCall_bounded max file [] (by simp)⟩
+      · exact ih _ c hc
+
+/-- What `main` hands to the parser (1023 bytes asked per call) is the file minus CRs. -/
+theorem readText_eq_dropCr (file : Bytes) : readText file = dropCr file :=
+  (reader_delivers_every_byte Lex.chunkMax (by decide) file).1
+
+/-- Boundary cases at a small buffer: a line of exactly `max`, `max+1`, `2·max` bytes, CRs at the boundary, no final newline. -/
+example : readChunks 4 (str "abcd\nefghi\r\njklmnopq\rr") = [str "abcd", str "\n", str "efgh", str "i\n", str "jklm", str "nopq", str "r"] := by decide
+example : (readChunks 4 (str "abcd\nefghi\r\njklmnopq\rr")).flatten = str "abcd\nefghi\njklmnopqr" := by decide
+example : readChunks 3 (str "\r\r") = [] ∧ readChunks 1 (str "a\rb") = [str "a", str "b"] := by decide
+
+/-- The reader that fetches the byte BEFORE testing the capacity (seeded mutation C19-m3: `while (fread(&c…) == 1
+&& read < max_size)`) — the property above is false for it: the byte at each buffer-full boundary is lost. -/
+def readCallEager (max : Nat) : Bytes → Bytes → Bytes × Bytes
+  | acc, [] => (acc.reverse, [])
+  | acc, c :: t =>
+    if acc.length < max then
+      if c == 13 then readCallEager max acc t
+      else if c != 10 then readCallEager max (c :: acc) t
+      else ((c :: acc).reverse, t)
+    else (acc.reverse, t)                                      -- the byte `c` has been consumed and is dropped
+
+theorem eager_reader_drops_a_byte :
+    let r1 := readCallEager 4 [] (str "abcdefg")
+    let r2 := readCallEager 4 [] r1.2
+    r1.1 ++ r2.1 = str "abcdfg" ∧ dropCr (str "abcdefg") = str "abcdefg" := by decide
+
+
 /-! ### exit status -/
 
 def succeeded : LibOutcome → Bool
@@ -148,6 +593,7 @@ theorem exit_zero_iff_success_main (env : Env) (argv : List Bytes) (stdin : Byte
   unfold run
   simp only [h]
   unfold runProgramMode selOf
+  simp only [readText_eq_dropCr]
   by_cases he : o.fileSout.isEmpty = true
   · cases hs : (if file == [45] then some stdin else env.readFile file) with
     | none => simp [he]
@@ -484,6 +930,253 @@ example : declsFirst (demo.map (·.1)) = true ∧
     (interLoop 50 (items demo) [] (interInit (demo.map (·.1)) [[97]])).2.2.output = [49, 55, 10, 50, 55, 10] := by
   decide +kernel
 
+/-! ### interactive = batch WITHOUT "declarations first": no redefinition, calls resolve where they stand -/
+
+section ScopedSec
+open BlocV.Lemmas.CliInterp
+
+/-- Every function of the table has a body whose calls resolve in the table. -/
+def closedTab (fs : List Func) : Bool := fs.all fun f => okL (resolves fs) f.body && okC (resolves fs) f.catches
+
+/-- What the parser guarantees of a text it accepts, statement by statement (`fs` = the functions declared so
+far): a declaration does not REdefine a signature; the calls of a statement, and of every function callable at
+that point, name functions declared up to that point (a function may call itself). Declarations may be
+interleaved with other statements in any order. -/
+def scopedFrom : List Func → List Stmt → Bool
+  | _, [] => true
+  | fs, st :: rest =>
+    (match st with
+     | .funcS n ps _ _ _ => !(resolves fs n ps.length)
+     | _ => true) &&
+    okS (resolves (declStep fs st)) st && closedTab (declStep fs st) && scopedFrom (declStep fs st) rest
+
+theorem getLast?_cons_ne {α} (a : α) (l : List α) (h : l ≠ []) : (a :: l).getLast? = l.getLast? := by
+  cases l with
+  | nil => exact absurd rfl h
+  | cons b t => simp [List.getLast?_cons_cons]
+
+theorem find_append_some {α} (l m : List α) (p : α → Bool) (h : (l.find? p).isSome = true) : (l ++ m).find? p = l.find? p := by
+  rw [List.find?_append]
+  cases hl : l.find? p with
+  | none => simp [hl] at h
+  | some x => rfl
+
+theorem addFunc_new (fs : List Func) (g : Func) (h : resolves fs g.name g.params.length = false) : addFunc fs g = fs ++ [g] := by
+  unfold addFunc
+  have : fs.any (sameSig g) = false := by
+    unfold resolves at h
+    have hn : fs.find? (sigP g.name g.params.length) = none := by
+      cases hf : fs.find? (sigP g.name g.params.length) with
+      | none => rfl
+      | some x => simp [hf] at h
+    rw [List.find?_eq_none] at hn
+    apply Bool.eq_false_iff.2
+    intro hany
+    obtain ⟨x, hx, hs⟩ := List.any_eq_true.1 hany
+    have := hn x hx
+    unfold sameSig at hs
+    unfold sigP at this
+    simp only [Bool.and_eq_true, beq_iff_eq] at hs this
+    exact this ⟨hs.1.symm, hs.2.symm⟩
+  simp [this]
+
+/-- One declaration step leaves every look-up that succeeded before as it was. -/
+theorem declStep_agree (fs : List Func) (st : Stmt)
+    (hnew : (match st with | .funcS n ps _ _ _ => !(resolves fs n ps.length) | _ => true) = true)
+    (name : String) (n : Nat) (hr : resolves fs name n = true) :
+    (declStep fs st).find? (sigP name n) = fs.find? (sigP name n) := by
+  cases st with
+  | funcS fn ps rt b c =>
+    simp only [Bool.not_eq_true'] at hnew
+    unfold declStep
+    simp only []
+    rw [addFunc_new fs _ (by simpa using hnew)]
+    exact find_append_some _ _ _ hr
+  | _ => rfl
+
+theorem scoped_agree : ∀ (rest : List Stmt) (fs : List Func), scopedFrom fs rest = true →
+    ∀ name n, resolves fs name n = true → (rest.foldl declStep fs).find? (sigP name n) = fs.find? (sigP name n) := by
+  intro rest
+  induction rest with
+  | nil => intro fs _ name n _; rfl
+  | cons st rest ih =>
+    intro fs h name n hr
+    simp only [scopedFrom, Bool.and_eq_true] at h
+    have h1 := declStep_agree fs st h.1.1.1 name n hr
+    have hr1 : resolves (declStep fs st) name n = true := by unfold resolves at hr ⊢; rw [h1]; exact hr
+    rw [List.foldl_cons, ih (declStep fs st) h.2 name n hr1, h1]
+
+/-- The table after the declarations read so far is extended, not changed, by the declarations still to come. -/
+theorem scoped_ext (fs : List Func) (rest : List Stmt) (hc : closedTab fs = true) (hs : scopedFrom fs rest = true) :
+    Ext (resolves fs) fs (rest.foldl declStep fs) := by
+  constructor
+  · intro name n hr; exact scoped_agree rest fs hs name n hr
+  · intro name n f _ hf
+    have hm : f ∈ fs := List.mem_of_find?_eq_some hf
+    unfold closedTab at hc
+    have := List.all_eq_true.1 hc f hm
+    simpa using this
+
+/-- All turns but the last end normally; the last ends normally or with a top-level `return`. -/
+def flowsOk : List StepRes → Bool
+  | [] => true
+  | r :: rest =>
+    match rest with
+    | [] => (match r.res with | some (.ok .norm) => true | some (.ok .ret) => true | _ => false)
+    | _ :: _ => (match r.res with | some (.ok .norm) => true | _ => false) && flowsOk rest
+
+theorem interLoop_nonempty (fuel : Nat) (st : Stmt) (n : Nat) (rest : List IItem) (fs : List Func) (s : St) :
+    (interLoop fuel (.stmt st n :: rest) fs s).1 ≠ [] := by
+  cases fuel with
+  | zero => simp [interLoop]
+  | succ k =>
+    simp only [interLoop]
+    split <;> simp
+
+theorem interLoop_nil (fuel : Nat) (fs : List Func) (s : St) : interLoop fuel [] fs s = ([], fs, s) := by
+  cases fuel <;> simp [interLoop]
+
+/-- Core of the comparison, without "declarations first": with the table `F` of the whole text (batch), the
+interactive loop — table grown declaration by declaration — computes what `execList` computes, provided no
+signature is redefined and calls resolve where they stand (`scopedFrom`). A top-level `return` as LAST
+statement is allowed: there batch stops with the value saved, the loop echoes the same value and clears it. -/
+theorem interLoop_eq_execList_scoped : ∀ (fuel : Nat) (prog : List (Stmt × Nat)) (fs : List Func) (s : St),
+    scopedFrom fs (prog.map (·.1)) = true →
+    flowsOk (interLoop fuel (items prog) fs s).1 = true → fuel ≠ 0 →
+    ∃ fl s', execList ((prog.map (·.1)).foldl declStep fs) 0 fuel (prog.map (·.1)) s = (.ok fl, s') ∧
+      ((fl = .norm ∧ (interLoop fuel (items prog) fs s).2.2 = s') ∨
+       (fl = .ret ∧ (interLoop fuel (items prog) fs s).2.2 = { s' with returned := none } ∧
+        ((interLoop fuel (items prog) fs s).1.getLast?.bind (·.echo)) = s'.returned)) := by
+  intro fuel
+  induction fuel with
+  | zero => intro prog fs s _ _ h; exact absurd rfl h
+  | succ k ih =>
+    intro prog fs s hd hn _
+    cases prog with
+    | nil => exact ⟨.norm, s, by simp [execList, pure], Or.inl ⟨rfl, by simp [items, interLoop]⟩⟩
+    | cons p rest =>
+      obtain ⟨st, n⟩ := p
+      simp only [List.map_cons, scopedFrom, Bool.and_eq_true] at hd
+      have htab : exec ((rest.map (·.1)).foldl declStep (declStep fs st)) 0 k st s = exec (declStep fs st) 0 k st s :=
+        congrFun ((ext_all (scoped_ext (declStep fs st) (rest.map (·.1)) hd.1.2 hd.2) k).2.2.2.2.2.1 0 st hd.1.1.2) s
+      simp only [items, List.map_cons, interLoop] at hn ⊢
+      rw [List.foldl_cons, execList_cons, htab]
+      cases hr : exec (declStep fs st) 0 k st s with
+      | mk r s' =>
+        simp only [hr] at hn ⊢
+        cases r with
+        | ok fl =>
+          have hstop : stops (Res.ok fl : Res Flow) = false := rfl
+          simp only [hstop, Bool.false_eq_true, if_false] at hn ⊢
+          cases fl with
+          | norm =>
+            simp only [Bool.false_eq_true, if_false] at hn ⊢
+            cases k with
+            | zero => simp [exec, oof, failE] at hr
+            | succ k2 =>
+              have hn' : flowsOk (interLoop (k2 + 1) (items rest) (declStep fs st) s').1 = true := by
+                unfold items
+                cases hk : (interLoop (k2 + 1) (List.map (fun p => IItem.stmt p.1 p.2) rest) (declStep fs st) s').1 with
+                | nil => rfl
+                | cons a b => rw [hk] at hn; simpa [flowsOk] using hn
+              obtain ⟨fl2, s2, h1, h2⟩ := ih rest (declStep fs st) s' hd.2 hn' (by omega)
+              refine ⟨fl2, s2, by simpa using h1, ?_⟩
+              rcases h2 with ⟨e1, e2⟩ | ⟨e1, e2, e3⟩
+              · exact Or.inl ⟨e1, by simpa [items] using e2⟩
+              · refine Or.inr ⟨e1, by simpa [items] using e2, ?_⟩
+                have hne : (interLoop (k2 + 1) (items rest) (declStep fs st) s').1 ≠ [] := by
+                  intro hnil; rw [hnil] at e3; subst e1
+                  cases rest with
+                  | nil => simp [execList, pure] at h1
+                  | cons q qs => exact interLoop_nonempty _ _ _ _ _ _ hnil
+                simp only [items] at hne e3
+                rw [getLast?_cons_ne _ _ hne]
+                exact e3
+          | ret =>
+            cases rest with
+            | nil =>
+              refine ⟨.ret, s', by simp, Or.inr ⟨rfl, ?_, ?_⟩⟩
+              · simp [interLoop_nil]
+              · simp [interLoop_nil]
+            | cons q qs =>
+              exfalso
+              have hne := interLoop_nonempty k q.1 q.2 (List.map (fun p => IItem.stmt p.1 p.2) qs) (declStep fs st) { s' with returned := none }
+              simp only [List.map_cons] at hn
+              cases hk : (interLoop k (IItem.stmt q.1 q.2 :: List.map (fun p => IItem.stmt p.1 p.2) qs) (declStep fs st) { s' with returned := none }).1 with
+              | nil => exact hne hk
+              | cons a b => simp [hk, flowsOk] at hn
+          | brk =>
+            exfalso
+            cases hk : (interLoop k (List.map (fun p => IItem.stmt p.1 p.2) rest) (declStep fs st) s').1 <;> simp [hk, flowsOk] at hn
+          | cont =>
+            exfalso
+            cases hk : (interLoop k (List.map (fun p => IItem.stmt p.1 p.2) rest) (declStep fs st) s').1 <;> simp [hk, flowsOk] at hn
+        | err c a =>
+          exfalso
+          by_cases hc : (c == oofCode) = true
+          · simp [stops, hc, flowsOk] at hn
+          · simp only [stops, hc] at hn
+            cases hk : (interLoop k (List.map (fun p => IItem.stmt p.1 p.2) rest) (declStep fs st) s').1 <;> simp [hk, flowsOk] at hn
+        | haz h => simp [stops, flowsOk] at hn
+        | unmodelled => simp [stops, flowsOk] at hn
+
+
+/-- **interactive_eq_batch_scoped_partial.** Feed a program to the interactive loop statement by statement —
+function declarations ANYWHERE among the other statements. If no signature is redefined and every call names a
+function declared before it (`scopedFrom`: what the parser enforces on an accepted text), every statement but
+the last ends normally, and the last ends normally or is a top-level `return`, then the batch run of the same
+program (`Parser::parse` + `Executable::run`) succeeds with the same printed output and the same variables;
+and either nothing is returned in both (same state altogether), or batch returns exactly the value the
+interactive loop echoes after its last statement (batch renders it with `output()`, the loop with `output_cli()`).
+(Still `_partial` w.r.t. the property text: a `return` before the end, a redefinition, an unhandled error are
+the recorded witnesses where the two modes differ.) -/
+theorem interactive_eq_batch_scoped_partial (fuel : Nat) (prog : List (Stmt × Nat)) (args : List Bytes)
+    (hs : scopedFrom [] (prog.map (·.1)) = true) (hf : fuel ≠ 0)
+    (hn : flowsOk (interLoop fuel (items prog) [] (interInit (prog.map (·.1)) args)).1 = true) :
+    let batch := runProgram fuel (prog.map (·.1)) (initState args)
+    let inter := interLoop fuel (items prog) [] (interInit (prog.map (·.1)) args)
+    batch.st.output = inter.2.2.output ∧ batch.st.vars = inter.2.2.vars ∧
+    ((batch.st = inter.2.2 ∧ batch.outcome = .ok inter.2.2.returned) ∨
+     (batch.outcome = .ok (inter.1.getLast?.bind (·.echo)) ∧ inter.2.2.returned = none)) := by
+  obtain ⟨fl, s', h, hcase⟩ := interLoop_eq_execList_scoped fuel prog [] (interInit (prog.map (·.1)) args) hs hn hf
+  rw [← collectFuncs_eq_foldl] at h
+  have hb : runProgram fuel (prog.map (·.1)) (initState args) = { outcome := .ok s'.returned, st := s' } := by
+    show (match execList (collectFuncs (prog.map (·.1))) 0 fuel (prog.map (·.1)) (interInit (prog.map (·.1)) args) with
+      | (.ok _, s) => ({ outcome := .ok s.returned, st := s } : RunResult)
+      | (.err c a, s) => { outcome := .err c a, st := s }
+      | (.haz h, s) => { outcome := .haz h, st := s }
+      | (.unmodelled, s) => { outcome := .unmodelled, st := s }) = _
+    rw [h]
+  simp only [hb]
+  rcases hcase with ⟨_, e2⟩ | ⟨_, e2, e3⟩
+  · rw [e2]; exact ⟨rfl, rfl, Or.inl ⟨rfl, rfl⟩⟩
+  · rw [e2, e3]; exact ⟨rfl, rfl, Or.inr ⟨rfl, rfl⟩⟩
+
+/-- Declarations interleaved with statements, a function calling an earlier one, a top-level `return` at the end:
+outside `declsFirst`, inside `scopedFrom`; the loop echoes the value batch returns. -/
+def demo2 : List (Stmt × Nat) :=
+  [(.printS [.lit (.int 1)], 1),
+   (.funcS "F" [] Ty.int [.returnS (some (.lit (.int 7)))] [], 1),
+   (.printS [.fcall "F" []], 1),
+   (.funcS "G" [("N", Ty.int)] Ty.int [.returnS (some (.bin .add (.var "N") (.fcall "F" [])))] [], 1),
+   (.letS "X" (.fcall "G" [.lit (.int 1)]), 1),
+   (.returnS (some (.var "X")), 1)]
+
+example : declsFirst (demo2.map (·.1)) = false ∧ scopedFrom [] (demo2.map (·.1)) = true ∧
+    flowsOk (interLoop 50 (items demo2) [] (interInit (demo2.map (·.1)) [])).1 = true ∧
+    (interLoop 50 (items demo2) [] (interInit (demo2.map (·.1)) [])).2.2.output = [49, 10, 55, 10] ∧
+    (((interLoop 50 (items demo2) [] (interInit (demo2.map (·.1)) [])).1.getLast?.bind (·.echo)).map outputCli) = some [56, 10] := by
+  decide +kernel
+
+/-- The redefinition witness is exactly what `scopedFrom` excludes. -/
+example :
+    let f (n : Int64) : Stmt := .funcS "F" [] Ty.int [.returnS (some (.lit (.int n)))] []
+    scopedFrom [] [f 1, .printS [.fcall "F" []], f 2, .printS [.fcall "F" []]] = false ∧
+    scopedFrom [] [f 1, .printS [.fcall "F" []]] = true ∧ scopedFrom [] [.printS [.fcall "F" []], f 1] = false := by
+  decide +kernel
+
+end ScopedSec
+
 /-- The full statement is FALSE on the code as it is — three witnesses.
 (1) known finding `C19.interactive_continues_after_return`: `return 1; print 2;` — batch prints
 nothing and returns 1, the interactive loop echoes 1 and goes on to print 2. -/
@@ -519,6 +1212,60 @@ theorem interactive_echo_differs :
     outputCli (.int 5) = outputVal (.int 5) ++ [10] ∧
     (outputCli (.str (List.replicate 100 120))).length = 80 ∧ (outputVal (.str (List.replicate 100 120))).length = 100 ∧
     outputCli (.tab Ty.str.levelUp [] [.str [97], .str [98]]) = str "[string][2]\n" := by
+  decide +kernel
+
+/-! ### the abstract `Env.compile` instantiated with the model's real front end (Model/Lex + Parse + Elab) -/
+
+/-- The front end sees through the reader: it makes of the reader's output (`readText`, CRs dropped by
+`ReadFile::read`) exactly what it makes of the raw file (its own `lineReader` drops CRs again — idempotent). -/
+theorem fe_reader_transparent (file : Bytes) : Elab.frontEnd (readText file) = Elab.frontEnd file := by
+  have h : Parse.tokensOf (readText file) = Parse.tokensOf file := by
+    unfold Parse.tokensOf Lex.lineReader Lex.stripCr
+    rw [readText_eq_dropCr]; unfold dropCr
+    rw [List.filter_filter]; simp
+  unfold Elab.frontEnd Parse.parseText
+  rw [h]
+
+/-- **stdout_eq_library_output / exit_zero_iff_success for the front-end instance.** `bloc FILE args` where the
+front end turns the file's text into the program `prog`: the process exits 0 iff `runProgram prog` (started with
+`$ARG = args`) ends without error, and the selected output is what that run printed, followed by the rendering of
+the returned value. No parser parameter is left: text in, bytes and status out. -/
+theorem fe_program_contract (base : Env) (sel : Sel) (file : Bytes) (args : List Bytes) (prog : List Stmt)
+    (h : Elab.frontEnd file = .ok (.ok prog)) :
+    let r := runProgram base.fuel prog (initState args)
+    let P := finish (feEnv base) sel (library (feEnv base) (readText file) args)
+    library (feEnv base) (readText file) args = .ran r ∧
+    (P.exit = .code 0 ↔ ∃ v, r.outcome = .ok v) ∧
+    selected sel P = some (match r.outcome with
+      | .ok (some v) => r.st.output ++ outputVal v
+      | _ => r.st.output) ∧
+    (∀ path, sel = .file path → P.stdout = []) := by
+  have hl : library (feEnv base) (readText file) args = .ran (runProgram base.fuel prog (initState args)) := by
+    unfold library feEnv
+    simp only [fe_reader_transparent, h]
+  simp only [hl]
+  refine ⟨trivial, ?_, (stdout_eq_library_output (feEnv base) sel _).1, (stdout_eq_library_output (feEnv base) sel _).2⟩
+  rw [exit_zero_iff_success]
+  unfold succeeded
+  simp only []
+  generalize (runProgram base.fuel prog (initState args)).outcome = oc
+  cases oc <;> simp
+
+/-- A text the parser model rejects (code `c`): exit status 1, nothing on the selected output, one `Error:` line. -/
+theorem fe_compile_error (base : Env) (sel : Sel) (file : Bytes) (args : List Bytes) (c : Nat)
+    (h : Elab.frontEnd file = .error c) :
+    let P := finish (feEnv base) sel (library (feEnv base) (readText file) args)
+    P.exit = .code 1 ∧ selected sel P = some [] ∧ P.stderr = errLine (base.what c []) := by
+  have hl : library (feEnv base) (readText file) args = .compileError none (base.what c []) := by
+    unfold library feEnv
+    simp only [fe_reader_transparent, h]
+  simp only [hl]
+  refine ⟨by simp [finish, deliver_exit], compile_error_output_empty _ sel none _, ?_⟩
+  cases sel <;> simp [finish, deliver]
+
+/-- The hypothesis is satisfiable: the TEXT `print 1+2;\r\nreturn "x";` through reader, scanner, parser, elaboration. -/
+example : (match Elab.frontEnd (str "print 1+2;\r\nreturn \"x\";\n") with | .ok (.ok _) => true | _ => false) = true ∧
+    (finish (feEnv demoEnv) .stdout (library (feEnv demoEnv) (readText (str "print 1+2;\r\nreturn \"x\";\n")) [])).stdout = str "3\nx" := by
   decide +kernel
 
 end BlocV.C19
